@@ -20,6 +20,7 @@ EXPLANATION = (
     "2^a 3^b table. Numerical equality with direct convolution / the FFT is NOT decided."
     ' (D2 as built) the un-padding slice keeps nsx + nsw samples and the transform is at least that long (argument of ns_optim_fft >= the slice bound); D4 / D5 evaluate take / arange counts under both parities instead of matching their spelling.'
     " (D5 as built) ns_optim_fft is accepted as a sorted 2^a 3^b table with a left search, or as an enumeration with one candidate per power of three (P times the smallest power of two reaching ceil(ns / P)) whose loop visits every P < 3 * ns; (D2) 'same' may use absolute bounds lo == (nsw-1)//2, hi - lo == nsx."
+    ' (DS) cached frequency responses are not modified in place (also inside the memoised helper itself, on the entry of another key); the band-pass identity hp(b[0:2]) * lp(b[2:4]) is evaluated on value terms when it is not a literal product.'
 )
 ASSUMPTIONS = [
     "numpy/scipy irfft(X, n) returns n samples; without n it returns 2*(len(X)-1) (model table)",
